@@ -74,7 +74,16 @@ func (details *PersonDetails) parseData(node tlv.TlvNode) error {
 		return fmt.Errorf("[parseData] ParseTags error: %w", err)
 	}
 
+	// a tag that is listed more than once is processed once: the handlers read every occurrence of their
+	// data object themselves, so n list entries x n data objects would otherwise yield n*n values
+	seen := make(map[tlv.TlvTag]bool, len(tagList))
+
 	for _, tag := range tagList {
+		if seen[tag] {
+			continue
+		}
+		seen[tag] = true
+
 		if err := details.processTag(tag, node); err != nil {
 			return fmt.Errorf("[parseData] processTag error: %w", err)
 		}
